@@ -6,7 +6,7 @@ from .C13 import TRUSTED
 def check(run):
     run.trusted = TRUSTED + ['re-parse oracle: harness dom domain, `R` words (dom::XmlDocument::from_raw_with_context on to_string(), contents compared through the DOM API in the merged-text view)']
     proved, _ = lib.proof_step(run, 'C15', ['-'])
-    okr, mok, sok = lib.build_binaries(run, model_areas=['dom'], spec_areas=['dom'])
+    okr, mok, sok = lib.build_binaries(run, model_areas=['dom', 'domfacts'], spec_areas=['dom'])
     if okr and sok.get('dom'):
         s = S.campaign(run)
         run.evaluations = s['ops']
@@ -40,6 +40,11 @@ def check(run):
             if t['mismatches']:
                 run.tie_breaks.append('dom correspondence: model and implementation differ (%d histories; see bin/check C12) e.g. after %s'
                                       % (len(t['mismatches']), D.describe_failure(t['mismatches'][0])))
+    # tie of Model/DomFacts.v (the string facts of the *_model_facts theorems, computed by the model of the parser)
+    # with the facts the harness computes with the real parser
+    if okr and mok.get('domfacts'):
+        ft = S.facts_tie(run)
+        run.extra['facts_tie'] = {'strings': ft['strings'], 'mismatches': len(ft['mismatches'])}
     return run.finish(level='proof',
         rule='after every call that reports success the serialisation of every document is re-parsed and its content (merged-text view, empty text ignored) compared with what the DOM reports; '
              'histories of creation, insertion and data-editing calls over an alphabet rich in ] > - ? < & quotes',
